@@ -169,6 +169,17 @@ func (r *Run) Exec(i int) Outcome {
 	case OpImport:
 		ws := r.S.Wallets[op.W]
 		out.Done = r.guard(func() {
+			// (see Generate: a restore is started on a wallet that follows the node's tip; after a
+			// restart late announcements may have taken the wallet back)
+			if r.W.H.VerifBest().Hash != *r.N.Tip().Hash() {
+				r.W.Notify(r.N.Tip())
+				if best := r.W.H.VerifBest(); best.Hash == *r.N.Tip().Hash() {
+					r.emit("P %d ok", r.S.Gen.CfBlockID(r.N.Tip()))
+					r.Stale = false
+				} else {
+					r.emit("P %d err", r.S.Gen.CfBlockID(r.N.Tip()))
+				}
+			}
 			sum, err := r.W.WM.ImportWalletWithMnemonic(&keystore.WalletParams{Mnemonic: ws.Mnemonic, PrivatePassphrase: []byte(ws.Pass),
 				ExternalIndex: uint32(ws.NAddr), AddressGapLimit: sim.Cur.GapLimit})
 			out.Err = err
@@ -320,10 +331,24 @@ func (r *Run) Snapshot() string {
 		}
 		sort.Strings(ab)
 		fmt.Fprintf(&sb, "w%d addrbal %s\n", num, strings.Join(ab, " "))
+		// durable issuance: the addresses the keystore manages for the wallet
+		_, _, _, ks, _ := r.W.WM.VerifStores()
+		kl, err := ks.GetAddrs(id)
+		if err != nil {
+			fmt.Fprintf(&sb, "w%d keystore-addrs error %v\n", num, err)
+		} else {
+			kl = append([]string{}, kl...)
+			sort.Strings(kl)
+			fmt.Fprintf(&sb, "w%d keystore-addrs %s\n", num, strings.Join(kl, " "))
+		}
+		// address-book rows (GetAddresses): SOFT lines (prefix "~"), compared separately. On the
+		// code as found they are not a function of the final chain: Rollback deletes the row of an
+		// issued address whose first payment is reorganised away, so a run that processed an
+		// abandoned fork and one that skipped it (both legitimate) end with different lists.
 		for _, cls := range []uint16{0, 1} {
 			l, err := r.W.WM.GetAddresses(cls)
 			if err != nil {
-				fmt.Fprintf(&sb, "w%d addrs%d error %v\n", num, cls, err)
+				fmt.Fprintf(&sb, "~w%d addrs%d error %v\n", num, cls, err)
 				continue
 			}
 			var as []string
@@ -331,7 +356,7 @@ func (r *Run) Snapshot() string {
 				as = append(as, fmt.Sprintf("%s/%d/%v", d.Address, d.AddressClass, d.Used))
 			}
 			sort.Strings(as)
-			fmt.Fprintf(&sb, "w%d addrs%d %s\n", num, cls, strings.Join(as, " "))
+			fmt.Fprintf(&sb, "~w%d addrs%d %s\n", num, cls, strings.Join(as, " "))
 		}
 	}
 	return sb.String()
@@ -363,4 +388,19 @@ func (r *Run) HasAddress(num int, addr string, class uint16) bool {
 		}
 	}
 	return false
+}
+
+// Strict returns the lines of a snapshot that must agree between any two replays of a script;
+// Soft the address-book lines (see Snapshot).
+func Strict(snap string) string { return pick(snap, false) }
+func Soft(snap string) string   { return pick(snap, true) }
+
+func pick(snap string, soft bool) string {
+	var out []string
+	for _, l := range strings.Split(snap, "\n") {
+		if strings.HasPrefix(l, "~") == soft {
+			out = append(out, l)
+		}
+	}
+	return strings.Join(out, "\n")
 }
